@@ -40,7 +40,7 @@ def run(ctx):
     else:
         tracep = ctx.tmp + "/trace.ndjson"
         env = {"VF_MODE": "rt", "VF_OUT": tracep, "VF_SEED": ctx.seed, "VF_TYPES": ",".join(names),
-               "VF_N": 8 if ctx.quick else 60, "VF_BYTES_PER_TYPE": 12000 if ctx.quick else 120000}
+               "VF_N": 8 if ctx.quick else 160, "VF_BYTES_PER_TYPE": 12000 if ctx.quick else 250000}
         vf.run_driver(ctx, binp, "TestRun", env=env, timeout=1200)
         lines = vf.read_lines(tracep)
     ctx.cov["evaluations"] = len(lines)
@@ -56,7 +56,7 @@ def run(ctx):
                        "maps rebuilt); non-trivial = distinct (type, encoding) pairs with an encoding longer than one byte" % len(per_type))
     ctx.cov["actions"].update({"types_exercised": len(per_type), "schema_types": len(names)})
     ctx.cov["samples"] = [{kk: (vv if kk != "v" and kk != "dec" else "...") for kk, vv in json.loads(x).items()} for x in lines[:3] if len(x) < 4000]
-    bad = vf.validate_trace(ctx, "Codec_Trace", cc.shard_by_size(lines), constants=cc.trace_constants(k), timeout=1500, heap="3g",
+    bad = vf.validate_trace(ctx, "Codec_Trace", cc.shard_by_size(lines, 1200000 if ctx.quick else 2500000), constants=cc.trace_constants(k), timeout=1500, heap="3g",
                             par=6 if ctx.quick else 12, what="codec round trip / determinism fails")
     mcjob.join()
     skipped = [w for w, _ in ctx.violations if "generated_value_not_wellformed" in w]
